@@ -337,6 +337,12 @@ def classify(mnem, intent):
     if f in ("addr", "dir", "ext"):
         if "DIR" not in modes and "EXT" not in modes:
             return ("reject", "mode: no direct/extended form")
+        if f == "dir" and isinstance(v, int) and -128 <= v < 0 and "DIR" in modes:
+            # <-n: whether a forced-direct operand may be negative is left open, but an assembler that accepts it has only one
+            # byte to put it in - the two's complement of the value, as for every other 8-bit field
+            want_b = v & 0xFF
+            return ("open", lambda rec: None if rec["mode"] == "DIR" and rec["key"] == ("mem", want_b) else
+                    "forced direct {} encoded as {} {}".format(v, rec["mode"], rec.get("key")))
         if not 0 <= v <= 65535:
             return ("reject", "range: address outside 0..65535") if v > 65535 or v < -32768 else ("open", "negative address")
         if f == "dir":
